@@ -30,7 +30,7 @@ cell of R_{j-1}.  Write opt_d(s,e) for the fewest slabs of levels >= d that tile
       (c) level j < d: impossible under the precondition e - s < R_{d-1}  (`no-shallower-slab-fits`)
       (d) L > R: [s,e) lies strictly inside one cell of R_d               (`no-boundary-inside=>...`), L <= R: the partial ranges are
           shorter than R_d                                                (`partials-are-smaller-than-a-cell`).
-  counting step (on paper; finite sums and induction on order - d — the one part that is cited, not machine-checked): let P be any
+  counting step (machine-checked by Lean 4, case `lemma/minimality-counting-lean`, lemmas/C15Minimality.lean; the argument in words): let P be any
   tiling of [s,e) by valid slabs.  By (c) all its slabs have level >= d.  If L > R, by (a) none has level d, so |P| >= opt_{d+1}(s,e),
   which the code attains by induction.  Otherwise by (a),(b) P splits into tilings P_l, P_c, P_r of [s,L), [L,R), [R,e); P_l and P_r
   contain no level-d slab by (a) (they lie outside [L,R)), so |P_l| >= opt_{d+1}(s,L), |P_r| >= opt_{d+1}(R,e), and |P_c| >= 1 iff L < R:
@@ -58,7 +58,7 @@ TRUSTED = [
     "ASSUMED contracts: Tensor.narrow(0, start, length) is the view [start, start+length) of a flat tensor (requires 0 <= start, length >= 0, start+length <= numel), never a copy; Tensor.view([-1, *rest]) requires numel divisible by prod(rest) and keeps the storage; math.prod is the product",
     "recursion by contract: the contract is assumed at recursive call sites (structural induction on order - dimension; dimension concrete)",
     "orders 0..5 enumerated (the property's domain); every extent >= 1 symbolic; nonlinear integer arithmetic decided by z3 (floor division encoded exactly)",
-    "MINIMALITY: the code is proved to follow the optimal recurrence and the arithmetic lemmas (a)-(d) of the lower bound are discharged (z3 with div/mul monotonicity instances; `cells-nest` split into four witness steps); the counting / induction step that combines them is a paper argument (module docstring), cross-checked by the bounded tier (exhaustive shapes with numel <= 36/64 against a DP optimum)",
+    "MINIMALITY: the code is proved to follow the optimal recurrence and the arithmetic lemmas (a)-(d) of the lower bound are discharged (z3 with div/mul monotonicity instances; `cells-nest` split into four witness steps); the counting / induction step that combines them is machine-checked by Lean 4 on every run (lemmas/C15Minimality.lean, theorem C15.minimality_top, which re-proves (a),(b) itself; statement about abstract strides S(j+1) | S(j), i.e. about the specification, linked to the code by the recurrence obligation); order 0 is outside the Lean statement (trivial: one element); additionally cross-checked by the bounded tier (exhaustive shapes with numel <= 24/64 against a DP optimum)",
 ]
 ASSUMPTIONS = ["extents >= 1; 0 <= start <= end <= numel; the shard has end - start elements"]
 EXPLANATION = "one recursion level of the real nested function per (order, dimension) against the contract, for both copies, plus the top-level wrapper and a relational FSDP = HSDP obligation"
@@ -216,6 +216,7 @@ def cases(tier):
         for d in range(0, max(order, 1)):
             cs.append(f"agree/o{order}/d{d}")
     cs.append("lemma/minimality")
+    cs.append("lemma/minimality-counting-lean")
     return cs
 
 
@@ -466,9 +467,46 @@ def _lemma_case(case):
     return out
 
 
+def _lean_case(case):
+    """The counting / induction step of the minimality argument, machine-checked by Lean 4 (lemmas/C15Minimality.lean):
+    any tiling of [s,e) by valid slabs has at least N(s,e) pieces, N = the recurrence the code is proved to follow
+    (`ensures:pieces-follow-the-optimal-recurrence`).  Specification-side mathematics only; a failure here is never a
+    violation of the property by /repo (status unknown => undecided)."""
+    import os
+    import re
+    import shutil
+    import subprocess
+    import time
+    func = "lemma:minimal-slab-decomposition"
+    here = os.path.dirname(os.path.dirname(os.path.abspath(__file__)))
+    src = os.path.join(here, "lemmas", "C15Minimality.lean")
+    ob = f"{func}/counting-step:any-tiling-has-at-least-as-many-pieces-as-the-recurrence[{case}]"
+    text = ("Lean 4 theorem C15.minimality_top: Strides S -> Tiling S n 0 s e k -> N S n 0 s e <= k  (with the arithmetic facts (a), (b) "
+            "re-proved inside Lean; no sorry; axioms restricted to propext / Classical.choice / Quot.sound)")
+    lean = shutil.which("lean")
+    if lean is None or not os.path.exists(src):
+        return [result(ob, func, "unknown", backend="lean4 (not found)", case=case, text=text)]
+    body = open(src).read()
+    t0 = time.time()
+    probe = body + "\n#print axioms C15.minimality_top\n#print axioms C15.minimality\n"
+    try:
+        r = subprocess.run([lean, "--stdin"], input=probe, capture_output=True, text=True, timeout=840, cwd=os.path.dirname(src))
+        outp = r.stdout + r.stderr
+        ok = r.returncode == 0 and "error" not in outp and "sorry" not in body and "sorryAx" not in outp
+        axs = set(re.findall(r"[A-Za-z_.]+", " ".join(re.findall(r"depends on axioms: \[([^\]]*)\]", outp))))
+        ok = ok and outp.count("depends on axioms") + outp.count("does not depend on any axioms") == 2 and axs <= {"propext", "Classical.choice", "Quot.sound"}
+        ver = subprocess.run([lean, "--version"], capture_output=True, text=True).stdout.strip()[:60]
+    except BaseException as ex:  # noqa
+        return [result(ob, func, "unknown", backend="lean4", case=case, text=text + f" — lean did not finish: {ex!r}"[:300], time_s=time.time() - t0)]
+    return [result(ob, func, "discharged" if ok else "unknown", backend=ver or "lean4", case=case, time_s=time.time() - t0,
+                   text=text if ok else text + " — NOT accepted: " + outp[-600:])]
+
+
 def run_case(case, tier, seed):
     if case == "lemma/minimality":
         return _lemma_case(case)
+    if case == "lemma/minimality-counting-lean":
+        return _lean_case(case)
     if case.startswith("level/"):
         return _level_case(case)
     if case.startswith("top/"):
